@@ -59,12 +59,15 @@ Cases ==
   \cup {GB(cd, s, g) : cd \in {"thrift"}, s \in {"thriftempty"}, g \in {"empty", "random"}}
   \cup {GB("thrift", "thriftdoc:small", g) : g \in {"empty", "random", "truncate", "flip"}}
 
+\* decoding into a destination that is a window of a larger buffer (a []byte with spare capacity, as a caller that
+\* reuses an arena hands it in): nothing outside the window may change, whatever the length of the input
+Window == {[fam |-> "codec", kind |-> "window", codec |-> "plain", shape |-> sh, expect |-> "clean"] : sh \in {"short", "fit", "long", "empty"}}
 VARIABLES c, done
 vars == <<c, done>>
-Init == c \in Cases /\ done = FALSE
+Init == c \in Cases \cup Window /\ done = FALSE
 Run == ~done /\ done' = TRUE /\ UNCHANGED c
 Spec == Init /\ [][Run]_vars
-OracleSane == (c.kind = "garbage") <=> (c.expect = "clean")
+OracleSane == (c.kind \in {"garbage", "window"}) <=> (c.expect = "clean")
 Emit == Export = "" \/ Serialize(ToJson(c) \o "\n", Export,
           [format |-> "TXT", charset |-> "UTF-8", openOptions |-> <<"WRITE", "CREATE", "APPEND">>]).exitValue = 0
 =============================================================================
